@@ -193,6 +193,11 @@ func RunC09(r *core.Rng, run uint64, seed uint64, tier string, cov *Cov) []*Viol
 	}
 	cfg := gen.DefaultCfg(r)
 	doc := gen.Generate(r, cfg)
+	if r.Chance(0.12) && gen.Malform(r, doc) {
+		// a dump the scanner must reject: the error path, too, must not depend
+		// on the delivery schedule
+		cov.Probe("malformed-dump")
+	}
 	return runC09Doc(r, doc, run, seed, tier, cov)
 }
 
